@@ -238,12 +238,19 @@ structure ZipMember where
   readErr : Bool
   deriving DecidableEq, Repr
 
-/-- copyFromZipArchive (unpacking.go:191-201): `io.CopyN(dst, r, MaxUnpackSize)`; io.EOF (the member was shorter
-    than the limit) is success, any other error fails, and so is NO error — exactly MaxUnpackSize bytes copied —
-    whatever is left in the member. Result: (bytes written, failed). -/
-def zipCopy (m : ZipMember) : Nat × Bool :=
+/-- copyFromZipArchive (unpacking.go:191-210): `io.CopyN(dst, r, MaxUnpackSize)`; io.EOF (the member was shorter
+    than the limit) is success, any other error fails. When exactly MaxUnpackSize bytes were copied without error
+    the code — `PB.Gen.FsDownload.zipLimitChecked`, read off the source — asks the reader for one more byte: the
+    member must end there (io.EOF; a checksum error shows up at this point too), a member with more bytes fails.
+    (Without that check — `zipLimitChecked = false` — nil is returned at once and whatever is left in the member
+    is cut off.) Result: (bytes written, failed). -/
+def zipCopyWith (limitChecked : Bool) (m : ZipMember) : Nat × Bool :=
   if m.size < PB.Gen.FsDownload.maxUnpackSize then (m.size, m.readErr)
+  else if limitChecked then
+    (PB.Gen.FsDownload.maxUnpackSize, if m.size = PB.Gen.FsDownload.maxUnpackSize then m.readErr else true)
   else (PB.Gen.FsDownload.maxUnpackSize, false)
+
+def zipCopy (m : ZipMember) : Nat × Bool := zipCopyWith PB.Gen.FsDownload.zipLimitChecked m
 
 /-- unpackZipArchive renames the temporary directory into place iff the archive opens and every member is copied
     without failure (a failure leaves through the deferred RemoveAll). -/
